@@ -69,6 +69,9 @@ def plan(tier, seed):
         for same in (True, False):
             for pre in (True, False):
                 out.append(('reset_hard', {'line': li, 'same': same, 'pre_resolved': pre}))
+    for files, ne in ((['a.txt'], 1), (['a.txt'], 2), (['a b.txt'], 1), (['a.txt', 'dir/c.txt'], 1)):
+        out.append(('stash_restore', {'files': files, 'entries': ne}))
+    out.append(('stash_restore', {'files': ['a.txt'], 'has_note': False}))
     for spec in ({'spec': 'none'}, {'spec': 'file'}, {'spec': 'dir'}, {'spec': 'dir', 'slash': True}, {'spec': 'glob'}):
         out.append(('stash_scope', spec))
     for li in range(len(PRE_RESET_LINES)):
@@ -163,6 +166,13 @@ def install(M):
         P.events.append(('stash_delete', [list(as_bytes(x)) for x in elems_of(args[2])]))
         return ok(unit())
     M.env['commands::hooks::stash_hooks::resolve_stash_to_sha'] = stash_sha
+
+    def read_stash_note(P, c, args, dt):
+        v = P.state.get('c03_stash_note')
+        if v is None:
+            return err(Opaque('GitAiError', 'no stash note'))
+        return ok(clone_val(P, v))
+    M.env['commands::hooks::stash_hooks::read_stash_note'] = read_stash_note
     M.env['commands::hooks::stash_hooks::save_stash_note'] = stash_note
     M.env['commands::hooks::stash_hooks::delete_working_log_for_files'] = stash_delete
     M.env['commands::checkpoint::run'] = checkpoint_run
@@ -614,7 +624,68 @@ def ob_stash_scope(h, shape):
     h.sample = h.witness()
 
 
-OBLIGATIONS = {'stash_scope': ob_stash_scope, 'pre_reset': ob_pre_reset, 'merge_checkout': ob_merge_checkout, 'force_checkout': ob_force_checkout, 'batch': ob_batch, 'checkout_paths': ob_checkout_paths, 'reset': ob_reset, 'fold': ob_fold, 'reset_hard': ob_reset_hard}
+def ob_stash_restore(h, shape):
+    """`git stash pop` / `apply`: the note kept for the stash comes back as pending attribution of the commit that is
+    checked out: every line range of every session the note lists, under the same file and session, and nothing else;
+    the sessions' records come along (the note is produced by the real serializer from symbolic ranges and read by the
+    real parser)"""
+    from harness import c09
+    P = h.P
+    M = P.M
+    wl = mk_wl(M)
+    P.state['wl'] = wl
+    P.state['fs'] = {'/wl': 'DIR'}
+    P.state['c03_head'] = 'head'
+    P.state['c03_merge'] = {'dirty': True}
+    files = [(f, shape.get('entries', 1), 1) for f in shape['files']]
+    log, desc = c09.sym_note(h, 'st', files, iter('sr' * 8))
+    # line numbers below 1000 (three digit-length classes per number keep the path count small)
+    for _f, _hk, rs in desc:
+        for a, b in rs:
+            P.assume(binop('Le', a, Sc(999, 32)))
+            P.assume(binop('Le', b, Sc(999, 32)))
+    h.inputs_struct = {'note': c09.desc_json(desc), 'has_note': shape.get('has_note', True)}
+    if shape.get('has_note', True):
+        txt = P.call_named(c09.LOG + '::serialize_to_string', [Ref(Cell(log))])
+        if txt.var != 'Ok':
+            raise Unsupported('serializing the stash note failed')
+        P.state['c03_stash_note'] = txt.f[0]
+    repo = mk_repo(M)
+    try:
+        r = P.call_named('commands::hooks::stash_hooks::restore_stash_attributions', [Ref(Cell(repo)), pystr('stashsha'), pystr('A U Thor')])
+    except Panic as e:
+        h.panic('K2-stash-restore-no-panic', e.msg)
+        return
+    h.require(r.var == 'Ok', 'K2-stash-restore-ok', 'restoring the stash attribution failed')
+    init = P.call_named(PWL + '::read_initial_attributions', [Ref(Cell(wl))])
+    got = {}
+    for ent in field(M, init, INIT, 'files').ent:
+        nm = concrete_bytes(as_bytes(ent[0])).decode()
+        got[nm] = [(field(M, la, LATTR, 'start_line'), field(M, la, LATTR, 'end_line'), bytes(concrete_bytes(as_bytes(field(M, la, LATTR, 'author_id')))).decode()) for la in ent[1].e]
+    want = {}
+    if shape.get('has_note', True):
+        for f, hk, rs in desc:
+            for a, b in rs:
+                want.setdefault(f, []).append((a, b, hk))
+    h.require(sorted(got) == sorted(want), 'K2-stash-pop-restores-the-files-of-the-note', 'INITIAL names %r, the stash note %r' % (sorted(got), sorted(want)))
+    for f in want:
+        if f not in got:
+            continue
+        g = got[f]
+        okk = len(g) == len(want[f])
+        conds = []
+        for (a, b, hk) in want[f]:
+            conds.append(any_of([all_of([binop('Eq', ga, a), binop('Eq', gb, b)]) for (ga, gb, gh) in g if gh == hk]))
+        h.require(okk and all_of(conds), 'K2-stash-pop-restores-every-range-under-its-session',
+                  'file %s: INITIAL holds %d ranges, the note %d; or a range / session differs' % (f, len(g), len(want[f])))
+    if shape.get('has_note', True):
+        prom = field(M, init, INIT, 'prompts')
+        keys = sorted(bytes(concrete_bytes(as_bytes(k))).decode() for k, _ in prom.ent)
+        h.require(keys == sorted(c09.TOOLS), 'K2-stash-pop-restores-the-session-records', 'records restored for %r' % keys)
+    h.sample = h.witness()
+
+
+OBLIGATIONS = {'stash_restore': ob_stash_restore, 'stash_scope': ob_stash_scope, 'pre_reset': ob_pre_reset, 'merge_checkout': ob_merge_checkout, 'force_checkout': ob_force_checkout, 'batch': ob_batch, 'checkout_paths': ob_checkout_paths, 'reset': ob_reset, 'fold': ob_fold, 'reset_hard': ob_reset_hard}
 
 
 def extra_checks(tier, seed, native):
@@ -637,6 +708,8 @@ def extra_checks(tier, seed, native):
 
 def replay(v, native):
     inp = v['inputs']
+    if 'has_note' in inp:
+        return {'reproduced': False, 'note': 'the pop side is replayed through c03_stash_scope only for the save side; not staged natively'}
     if 'stash_pathspec' in inp:
         r = native('c03_stash_scope', inp)
         if 'panic' in r:
